@@ -300,7 +300,8 @@ def run(ctx):
         ctx.oracle_failures += 1
         ctx.violation({"family": "smith_operation", "case": c, "impl": o[:3000], "schema": sdl[:3000],
                        "class": bad[0] if bad else obs.split(" ")[0],
-                       "diagnostic": bad[1][:600] if bad else (unhexs(obs.split(" ")[1])[:600] if " " in obs else ""),
+                       "diagnostic": bad[1][:600] if bad else
+                       (unhexs(obs.split(" ")[1])[:600] if obs.startswith("panic ") else obs[:200]),
                        "operation": unhexs(obs.split(" ")[1])[:3000] if obs.startswith("op ") else None,
                        "what": "the operation generated against the parsed schema is not valid against it "
                                "(or the generator panicked / died / exceeded its depth bound)"})
